@@ -31,10 +31,21 @@ func renderBook(b absBook) string {
 	for _, r := range b {
 		sb.WriteString(r.Name + ":\n")
 		for _, i := range r.Ings {
-			sb.WriteString("  " + i.Name + ": " + fmtNum(i.Val) + "\n")
+			sb.WriteString("  " + i.Name + ": " + numText(i) + "\n")
 		}
 	}
 	return sb.String()
+}
+
+// ingText: how the quantity of an entry is SPELT in the file, where that is not the shortest decimal (".5", "5.", "+4",
+// "1e0"): keyed by the entry, filled by the scenarios that want it (harness/specials.go). The value is the same number.
+var ingText = map[absIng]string{}
+
+func numText(i absIng) string {
+	if t, ok := ingText[i]; ok {
+		return t
+	}
+	return fmtNum(i.Val)
 }
 
 func renderLog(l absLog) string {
@@ -49,7 +60,7 @@ func renderLog(l absLog) string {
 			}
 		}
 		for _, e := range d.Entries {
-			sb.WriteString("  " + e.Name + ": " + fmtNum(e.Val) + "\n")
+			sb.WriteString("  " + e.Name + ": " + numText(e) + "\n")
 		}
 	}
 	return sb.String()
